@@ -110,10 +110,17 @@ def check(ctx, pods, ctrs, recs, label):
             ctx.failures.append({"op": label, "what": "pod %s does not write %%t/%%N.pod-id" % p["stem"], "set": setdesc, "class": None})
 
 
+def ctr_split(c):
+    # the same unit with its Pod=/StartWithPod= lines moved to a drop-in (the run merges drop-ins before the name table is built)
+    main = "[Container]\nImage=img\n" + ("ServiceName=%s\n" % c["service_name"] if c["service_name"] else "") + (c["broken"] or "")
+    drop = "[Container]\n" + ("Pod=%s\n" % c["pod"] if c["pod"] else "") + ("StartWithPod=%s\n" % c["start"] if c["start"] else "")
+    return main, drop
+
+
 def run(ctx):
     ctx.rule = ("sets of 0-3 pods (file stems with blanks and dashes, optional ServiceName incl. one with '/' and ones ending in .service / -pod / .pod, optional PodName) and 0-6 containers, each naming one of the pods, a missing pod, "
                 "a non-.pod name or none, with StartWithPod yes/no/true/false/absent, optional ServiceName, some containers failing conversion early or late (dangling volume/network, bad port, bad group, bad mount, bad escape, bad KillMode/Type); random file order; in-process and end to end; "
-                "non-trivial = at least one pod with a member; distinct = distinct sets")
+                "end to end, a third of the members get Pod=/StartWithPod= from a DROP-IN and a third of the named pods their ServiceName= (the run merges drop-ins before the name table is built, C09_*_with_dropins); non-trivial = at least one pod with a member; distinct = distinct sets")
     rng = ctx.rng
     sets = [gen_set(rng) for _ in range(ctx.volume(1500, 20000))]
     cases = []
@@ -142,7 +149,19 @@ def run(ctx):
         for i, (pods, ctrs) in enumerate(sets[: ctx.volume(40, 400)]):
             root = box.path(str(i))
             files = {"u/%s.pod" % p["stem"]: pod_text(p) for p in pods}
-            files.update({"u/%s.container" % c["stem"]: ctr_text(c) for c in ctrs})
+            for c in ctrs:
+                if (c["pod"] or c["start"]) and rng.random() < 0.35:
+                    main, drop = ctr_split(c)
+                    files["u/%s.container" % c["stem"]] = main
+                    files["u/%s.container.d/10-pod.conf" % c["stem"]] = drop
+                    ctx.count("e2e_membership_in_dropin")
+                else:
+                    files["u/%s.container" % c["stem"]] = ctr_text(c)
+            for p_ in pods:
+                if p_["service_name"] and rng.random() < 0.35:
+                    files["u/%s.pod" % p_["stem"]] = "[Pod]\n" + ("PodName=%s\n" % p_["podname"] if p_["podname"] else "")
+                    files["u/%s.pod.d/name.conf" % p_["stem"]] = "[Pod]\nServiceName=%s\n" % p_["service_name"]
+                    ctx.count("e2e_pod_service_name_in_dropin")
             files.setdefault("u/.keep", "")
             e2e.make_tree(root, files)
             rc, out, err = e2e.run_quadlet([os.path.join(root, "u")], os.path.join(root, "out"), dry_run=True)
